@@ -1,4 +1,5 @@
-package main
+// Package vhlib: shared plumbing of the verification harness binaries (one binary per property group under cmd/).
+package vhlib
 
 import (
 	"crypto/sha256"
@@ -6,6 +7,9 @@ import (
 	"encoding/json"
 	"flag"
 	"fmt"
+	"go/ast"
+	"go/parser"
+	"go/token"
 	"os"
 	"path/filepath"
 	"sort"
@@ -32,9 +36,9 @@ func (r *Rng) Intn(n int) int {
 	}
 	return int(r.U64() % uint64(n))
 }
-func (r *Rng) Bool() bool         { return r.U64()&1 == 1 }
-func (r *Rng) Pct(p int) bool     { return r.Intn(100) < p }
-func (r *Rng) Pick(xs []int) int  { return xs[r.Intn(len(xs))] }
+func (r *Rng) Bool() bool               { return r.U64()&1 == 1 }
+func (r *Rng) Pct(p int) bool           { return r.Intn(100) < p }
+func (r *Rng) Pick(xs []int) int        { return xs[r.Intn(len(xs))] }
 func (r *Rng) PickS(xs []string) string { return xs[r.Intn(len(xs))] }
 func (r *Rng) Bytes(n int) []byte {
 	b := make([]byte, n)
@@ -54,21 +58,21 @@ type Failure struct {
 }
 
 type Summary struct {
-	Property      string                 `json:"property"`
-	Tier          string                 `json:"tier"`
-	Seed          uint64                 `json:"seed"`
-	Evaluations   int                    `json:"evaluations"`
-	Nontrivial    int                    `json:"distinct_nontrivial"`
-	Rule          string                 `json:"rule"`
-	Samples       []interface{}          `json:"samples"`
-	Distribution  map[string]int         `json:"distribution"`
-	Failures      []Failure              `json:"property_failures"`
-	Shards        []string               `json:"shards"`
-	CaseIndex     map[string]interface{} `json:"case_index,omitempty"` // "shard:idx" -> case description (only kept for a bounded number)
-	Exhaustive    bool                   `json:"exhaustive"`
-	Extra         map[string]interface{} `json:"extra,omitempty"`
-	distinct      map[string]bool
-	failSeen      map[string]int
+	Property     string                 `json:"property"`
+	Tier         string                 `json:"tier"`
+	Seed         uint64                 `json:"seed"`
+	Evaluations  int                    `json:"evaluations"`
+	Nontrivial   int                    `json:"distinct_nontrivial"`
+	Rule         string                 `json:"rule"`
+	Samples      []interface{}          `json:"samples"`
+	Distribution map[string]int         `json:"distribution"`
+	Failures     []Failure              `json:"property_failures"`
+	Shards       []string               `json:"shards"`
+	CaseIndex    map[string]interface{} `json:"case_index,omitempty"` // "shard:idx" -> case description (only kept for a bounded number)
+	Exhaustive   bool                   `json:"exhaustive"`
+	Extra        map[string]interface{} `json:"extra,omitempty"`
+	distinct     map[string]bool
+	failSeen     map[string]int
 }
 
 type Run struct {
@@ -163,16 +167,16 @@ func (r *Run) Finish() int {
 type Shard struct {
 	run    *Run
 	name   string
-	header string
-	typ    string
-	eval   string
+	Header string
+	Typ    string
+	Eval   string
 	items  []string
 	descr  []interface{}
 }
 
 func (r *Run) NewShard(header, typ, eval string) *Shard {
 	r.shardNo++
-	return &Shard{run: r, name: fmt.Sprintf("%s_%d", r.Prop, r.shardNo), header: header, typ: typ, eval: eval}
+	return &Shard{run: r, name: fmt.Sprintf("%s_%d", r.Prop, r.shardNo), Header: header, Typ: typ, Eval: eval}
 }
 
 // Add appends one case (Coq term) together with a JSON-able description used in reports.
@@ -188,8 +192,8 @@ func (s *Shard) Close() {
 		return
 	}
 	var b strings.Builder
-	b.WriteString(s.header)
-	b.WriteString("\nDefinition cases : list (" + s.typ + ") := [\n")
+	b.WriteString(s.Header)
+	b.WriteString("\nDefinition cases : list (" + s.Typ + ") := [\n")
 	for i, it := range s.items {
 		if i > 0 {
 			b.WriteString(";\n")
@@ -197,7 +201,7 @@ func (s *Shard) Close() {
 		b.WriteString(" " + it)
 	}
 	b.WriteString("\n].\n")
-	b.WriteString("Definition M := Eval vm_compute in " + s.eval + " cases.\nPrint M.\n")
+	b.WriteString("Definition M := Eval vm_compute in " + s.Eval + " cases.\nPrint M.\n")
 	p := filepath.Join(s.run.Out, s.name+".v")
 	os.WriteFile(p, []byte(b.String()), 0o644)
 	s.run.Sum.Shards = append(s.run.Sum.Shards, s.name+".v")
@@ -215,8 +219,8 @@ func CoqZ(v int64) string {
 	}
 	return fmt.Sprintf("%d%%Z", v)
 }
-func CoqN(v uint64) string   { return fmt.Sprintf("%d%%N", v) }
-func CoqNat(v int) string    { return fmt.Sprintf("%d%%nat", v) }
+func CoqN(v uint64) string { return fmt.Sprintf("%d%%N", v) }
+func CoqNat(v int) string  { return fmt.Sprintf("%d%%nat", v) }
 func CoqBool(b bool) string {
 	if b {
 		return "true"
@@ -230,7 +234,8 @@ func CoqString(s string) string {
 }
 
 // CoqBytes prints a byte string as list N, run-length compressed:
-//   [1;2;3] ++ repeat 7 1000 ++ [...]
+//
+//	[1;2;3] ++ repeat 7 1000 ++ [...]
 func CoqBytes(b []byte) string {
 	if len(b) == 0 {
 		return "(@nil N)"
@@ -291,4 +296,82 @@ func WriteIfChanged(path string, content string) (changed bool) {
 	os.MkdirAll(filepath.Dir(path), 0o755)
 	os.WriteFile(path, []byte(content), 0o644)
 	return true
+}
+
+// ---------------------------------------------------------------------------
+// Entry point and translator plumbing shared by the group binaries.
+
+type CmdFn func(args []string) int
+
+func Main(cmds map[string]CmdFn) {
+	if len(os.Args) < 2 {
+		fmt.Fprintln(os.Stderr, "usage: vh-<group> <cmd> ...")
+		os.Exit(2)
+	}
+	f, ok := cmds[os.Args[1]]
+	if !ok {
+		fmt.Fprintln(os.Stderr, "unknown command", os.Args[1])
+		os.Exit(2)
+	}
+	os.Exit(f(os.Args[2:]))
+}
+
+// GenFn is a translator: it reads the mosn tree and returns the text of one Coq file.
+type GenFn func(repo string) (content string, err error)
+
+// RunGen runs the translators of one group: coq/Gen/<name>.v is REGENERATED FROM /repo ON EVERY RUN.
+// A translator that fails emits `Definition <name>_translator_ok := false.` so that the proof
+// obligation `<name>_translator_ok = true` in Props fails.
+func RunGen(gens map[string]GenFn, args []string) int {
+	fs := flag.NewFlagSet("gen", flag.ExitOnError)
+	repo := fs.String("repo", "/repo", "mosn source tree")
+	out := fs.String("out", "/verif/coq/Gen", "output directory")
+	fs.Parse(args)
+	names := make([]string, 0, len(gens))
+	for n := range gens {
+		names = append(names, n)
+	}
+	sort.Strings(names)
+	for _, n := range names {
+		c, err := gens[n](*repo)
+		if err != nil {
+			fmt.Fprintf(os.Stderr, "gen %s: %v\n", n, err)
+			c = fmt.Sprintf("(* translator failed: %s *)\nDefinition %s_translator_ok := false.\n", strings.ReplaceAll(err.Error(), "*)", "* )"), n)
+		}
+		c = "(* GENERATED by the harness `gen` command from " + *repo + " - do not edit *)\n" + c
+		if WriteIfChanged(filepath.Join(*out, n+".v"), c) {
+			fmt.Println("gen: updated", n+".v")
+		}
+	}
+	return 0
+}
+
+// ParseGoFile parses one Go file of the repo (for go/ast translators).
+func ParseGoFile(repo, rel string) (*token.FileSet, *ast.File, error) {
+	fset := token.NewFileSet()
+	f, err := parser.ParseFile(fset, filepath.Join(repo, rel), nil, parser.ParseComments)
+	return fset, f, err
+}
+
+// FindFunc returns the declaration of func (recv) name; recv=="" for plain functions.
+func FindFunc(f *ast.File, recv, name string) *ast.FuncDecl {
+	for _, d := range f.Decls {
+		fd, ok := d.(*ast.FuncDecl)
+		if !ok || fd.Name.Name != name {
+			continue
+		}
+		if recv == "" && fd.Recv == nil {
+			return fd
+		}
+		if recv != "" && fd.Recv != nil && len(fd.Recv.List) == 1 {
+			t := fd.Recv.List[0].Type
+			if st, ok := t.(*ast.StarExpr); ok {
+				t = st.X
+			}
+			if id, ok := t.(*ast.Ident); ok && id.Name == recv {
+				return fd
+			}
+		}
+	}
+	return nil
 }
